@@ -100,34 +100,34 @@ func decodeOp(op string, b []byte) string {
 	switch op {
 	case "bool":
 		v, n, err := spec.DecodeBool(b)
-		return res(strconv.FormatBool(v), n, err, ln)
+		return res(strconv.FormatBool(v), n, err, ln) + accessorCheck(op, b, strconv.FormatBool(v), err != nil)
 	case "byte":
 		v, n, err := spec.DecodeByte(b)
-		return res(strconv.Itoa(int(v)), n, err, ln)
+		return res(strconv.Itoa(int(v)), n, err, ln) + accessorCheck(op, b, strconv.Itoa(int(v)), err != nil)
 	case "i16":
 		v, n, err := spec.DecodeInt16(b)
-		return res(strconv.FormatInt(int64(v), 10), n, err, ln)
+		return res(strconv.FormatInt(int64(v), 10), n, err, ln) + accessorCheck(op, b, strconv.FormatInt(int64(v), 10), err != nil)
 	case "i32":
 		v, n, err := spec.DecodeInt32(b)
-		return res(strconv.FormatInt(int64(v), 10), n, err, ln)
+		return res(strconv.FormatInt(int64(v), 10), n, err, ln) + accessorCheck(op, b, strconv.FormatInt(int64(v), 10), err != nil)
 	case "i64":
 		v, n, err := spec.DecodeInt64(b)
-		return res(strconv.FormatInt(v, 10), n, err, ln)
+		return res(strconv.FormatInt(v, 10), n, err, ln) + accessorCheck(op, b, strconv.FormatInt(v, 10), err != nil)
 	case "u16":
 		v, n, err := spec.DecodeUint16(b)
-		return res(strconv.FormatUint(uint64(v), 10), n, err, ln)
+		return res(strconv.FormatUint(uint64(v), 10), n, err, ln) + accessorCheck(op, b, strconv.FormatUint(uint64(v), 10), err != nil)
 	case "u32":
 		v, n, err := spec.DecodeUint32(b)
-		return res(strconv.FormatUint(uint64(v), 10), n, err, ln)
+		return res(strconv.FormatUint(uint64(v), 10), n, err, ln) + accessorCheck(op, b, strconv.FormatUint(uint64(v), 10), err != nil)
 	case "u64":
 		v, n, err := spec.DecodeUint64(b)
-		return res(strconv.FormatUint(v, 10), n, err, ln)
+		return res(strconv.FormatUint(v, 10), n, err, ln) + accessorCheck(op, b, strconv.FormatUint(v, 10), err != nil)
 	case "f32":
 		v, n, err := spec.DecodeFloat32(b)
-		return res(rd.ShowF32(v), n, err, ln)
+		return res(rd.ShowF32(v), n, err, ln) + accessorCheck(op, b, rd.ShowF32(v), err != nil)
 	case "f64":
 		v, n, err := spec.DecodeFloat64(b)
-		return res(rd.ShowF64(v), n, err, ln)
+		return res(rd.ShowF64(v), n, err, ln) + accessorCheck(op, b, rd.ShowF64(v), err != nil)
 	case "bin64":
 		v, n, err := spec.DecodeBin64(b)
 		if err != nil || n == 0 {
@@ -148,11 +148,11 @@ func decodeOp(op string, b []byte) string {
 		return res(hx.Hex(v.Marshal()), n, err, ln)
 	case "bytes":
 		v, n, err := spec.DecodeBytes(b)
-		return res(view(b, v), n, err, ln)
+		return res(view(b, v), n, err, ln) + accessorCheck(op, b, hx.Hex(v), err != nil)
 	case "str":
 		v, n, err := spec.DecodeString(b)
 		vb := unsafe.Slice(unsafe.StringData(string(v)), len(v))
-		return res(view(b, vb), n, err, ln)
+		return res(view(b, vb), n, err, ln) + accessorCheck(op, b, hx.Hex(vb), err != nil)
 	case "struct":
 		v, n, err := spec.DecodeStruct(b)
 		return res(strconv.Itoa(v), n, err, ln)
